@@ -58,8 +58,9 @@ func extractEmbeddedElems(
 
 		switch e := evaluated.(type) {
 		case *object.PanMap:
-			for _, pair := range *e.Pairs {
-				pairs = append(pairs, pair)
+			// NOTE: keep the order of the unpacked map (order of go map iteration is random)
+			for _, hashKey := range *e.HashKeys {
+				pairs = append(pairs, (*e.Pairs)[hashKey])
 			}
 			for _, nPair := range *e.NonHashablePairs {
 				if !existsNonHashableKey(env, nonHashablePairs, nPair) {
@@ -70,8 +71,12 @@ func extractEmbeddedElems(
 			}
 
 		case *object.PanObj:
-			for _, pair := range *e.Pairs {
-				pairs = append(pairs, pair)
+			// NOTE: keep the order of the unpacked obj (order of go map iteration is random)
+			for _, symHash := range *e.Keys {
+				pairs = append(pairs, (*e.Pairs)[symHash])
+			}
+			for _, symHash := range *e.PrivateKeys {
+				pairs = append(pairs, (*e.Pairs)[symHash])
 			}
 
 		default:
